@@ -65,6 +65,12 @@ def plan():
             for name in cf.DOI_SHAPE_REPOSITORIES[SCIENCE][0].names:
                 out.append(("entry", "DOI:" + SCIENCE, name))
             out.append(("unknown", None, None))
+            # a name of one family is an unknown name for every other family - before and after its owner has been asked for it
+            fams = list(COUNTS) + ["DOI:" + SCIENCE]
+            for a in fams:
+                for b in fams:
+                    if a != b:
+                        out.append(("foreign", a, b))
         _plan = out
     return _plan
 
@@ -96,6 +102,28 @@ def run_case(i, rng, rec, tier, state):
     kind, fam, name = plan()[i]
     with warnings.catch_warnings():
         warnings.simplefilter("ignore")
+        if kind == "foreign":
+            A, B = get_family(cf, fam), get_family(cf, name)
+            own = [n for n in A.names if n not in set(B.names)]
+            picks = [own[j] for j in sorted({0, len(own) // 2, len(own) - 1})] if own else []
+            rec.cls("foreign-name-history")
+            for nm in picks:
+                for phase in ("before-owner-asked", "after-owner-asked", "after-owner-asked-again"):
+                    try:
+                        got = B.get_shape(nm)
+                        rec.violation("unknown-key-KeyError", f"get_shape/name-of-another-family-accepted/{phase}",
+                                      {"asked": name, "owner": fam, "name": nm, "returned": type(got).__name__})
+                    except KeyError:
+                        rec.ok("unknown-key-KeyError")
+                    except Exception as e:
+                        rec.violation("unknown-key-KeyError", f"get_shape/name-of-another-family-raises-{type(e).__name__}",
+                                      {"asked": name, "owner": fam, "name": nm})
+                    try:
+                        A.get_shape(nm)
+                    except Exception as e:
+                        rec.violation("builds-ConvexPolyhedron", f"{fam}/own-name-raises-{type(e).__name__}", {"name": nm})
+            rec.nontriv("foreign", fam, name)
+            return
         if kind == "unknown":
             for F in [get_family(cf, f) for f in COUNTS] + [get_family(cf, "DOI:" + SCIENCE)]:
                 for bad in ("No Such Solid", "cube", ""):
